@@ -504,6 +504,38 @@ func (g *VCGen) localsAtInstr(b *ssa.BasicBlock, upTo ssa.Instruction, subst map
 				}
 			}
 		}
+		if name == "rangeover" {
+			// the slice a 'for … := range <expr>' loop iterates over (it has no source name when <expr> is a call):
+			// found through the element access indexed by the hidden range index of the innermost enclosing loop
+			var hdr *ssa.BasicBlock
+			for _, li := range g.loopList {
+				if li.blocks[b] && (hdr == nil || g.loops[hdr].blocks[li.header]) {
+					hdr = li.header
+				}
+			}
+			if hdr != nil {
+				for _, in := range hdr.Instrs {
+					phi, ok := in.(*ssa.Phi)
+					if !ok || phi.Comment != "rangeindex" {
+						continue
+					}
+					for bb := range g.loops[hdr].blocks {
+						for _, in2 := range bb.Instrs {
+							ia, ok := in2.(*ssa.IndexAddr)
+							if !ok {
+								continue
+							}
+							if add, ok := ia.Index.(*ssa.BinOp); ok && add.Op == token.ADD && add.X == ssa.Value(phi) {
+								if s, ok := g.vals[ia.X]; ok {
+									return s, true
+								}
+							}
+						}
+					}
+				}
+			}
+			return SpecVal{}, false
+		}
 		if strings.HasPrefix(name, "$") {
 			// escape hatch: SSA value by name
 			for _, bb := range g.fn.Blocks {
@@ -764,6 +796,26 @@ func (g *VCGen) loopHeader(b *ssa.BasicBlock, li *loopInfo, preds []*ssa.BasicBl
 		heap := g.so.heapFor(et)
 		if g.heapTerm(st, heap) != g.heapTerm(pre, heap) {
 			g.assumeHere(fmt.Sprintf("(= (select %s %s) (select %s %s))", g.heapTerm(st, heap), sv.T, g.heapTerm(pre, heap), sv.T))
+		}
+	}
+	if fs := g.snapshotSliceFacts(pre, st); len(fs) > 0 {
+		g.assumeHere(and(fs...))
+	}
+	if all {
+		for _, l := range g.callbacksKeepLocs(pre) {
+			a, b := g.heapTerm(pre, l.heap), g.heapTerm(st, l.heap)
+			if a == b {
+				continue
+			}
+			switch l.kind {
+			case "heap", "global":
+				g.assumeHere(fmt.Sprintf("(= %s %s)", b, a))
+			case "obj":
+				g.assumeHere(fmt.Sprintf("(= (select %s %s) (select %s %s))", b, l.ref, a, l.ref))
+			case "field":
+				sel := g.so.fieldSel(l.sort, l.st.Field(l.field).Name(), l.field)
+				g.assumeHere(fmt.Sprintf("(= (%s (select %s %s)) (%s (select %s %s)))", sel, b, l.ref, sel, a, l.ref))
+			}
 		}
 	}
 	li.hdrState = st.clone()
